@@ -505,9 +505,11 @@ def encModel (C : Codec F) (m : FastModel F) : Val F :=
          ("bias_list", .list (m.biasList.map .flt)), ("connections", .list (m.conns.map encLink))] ++
         (if m.modules.isEmpty then [] else [("modules", .list (m.modules.map (encMod C)))]))
 
-/-- `MarshalText` of `NodeActivator` fails for an unregistered type -/
-def modelWritable (C : Codec F) (m : FastModel F) : Bool :=
-  (m.acts.all fun a => (C.actName a).isSome) && (m.modules.all fun md => (C.actName md.act).isSome)
+/-- `WriteModel` returns no error: `MarshalText` of `NodeActivator` fails for an unregistered type, and
+    `encoding/json` refuses a float64 that is not finite (`fin`) -/
+def modelWritable (C : Codec F) (fin : F → Bool) (m : FastModel F) : Bool :=
+  (m.acts.all fun a => (C.actName a).isSome) && (m.modules.all fun md => (C.actName md.act).isSome) &&
+  m.biasList.all fin && m.conns.all fun c => fin c.weight && fin c.signal
 
 /-- a missing key leaves the Go zero value -/
 def getInt (kvs : List (String × Val F)) (k : String) : Except Err Int :=
